@@ -4,7 +4,7 @@ from specs import keys, snapshot, snapbody, loc, misc
 LEVEL = 'proof'
 UNITS = [keys.init_unit('C05'), keys.add_key_inner_unit('C05'), snapshot.producer_unit('C05'), snapshot.worker_unit('C05'), snapshot.tail_unit('C05'),
          snapbody.encrypt_body_unit('C05'), misc.aead_unit('C05')] + loc.parts_units('C05')
-BOUNDED = []
+BOUNDED = [{'name': 'C05.e2e_scan', 'script': 'bounded/c14_reference.py', 'timeout': 900, 'args': {'prop': 'C05'}, 'bound': 'encrypted configurations (2, thorough: 3): every stored object, every object name and the key file are searched for marker plaintexts (file content, file name, note, file digest, chunk digest, source directory) in raw, hex and base64 form; the independent reader must still decode everything'}]
 TRUSTED = [
     'vf symbolic executor (/verif/vf): encoding of the Python subset (DESIGN 2.2)',
     'z3 5.1 (API + z3-new CLI), cvc5 1.0.3 (strings)',
